@@ -122,7 +122,17 @@ func clampU32(v int64) uint32 {
 // drawSlot draws a timeslot from the boundary set around now and the window.
 func drawSlot(t *rapid.T, now, offset uint32, name string) uint32 {
 	n, o := int64(now), int64(offset)
-	c := []int64{n - 433, n - 432, n - 431, n - 1, n, n + 1, n + 431, n + 432, n + 433, o - 1, o, o + 1, o + 2015, o + 2016, o + 4031, o + 4032, o + 4033}
+	c := []int64{n - 433, n - 432, n - 431, n - 1, n, n + 1, n + 431, n + 432, n + 433, o - 1, o, o + 1, o + 2015, o + 2016, o + 2017, o + 4031, o + 4032, o + 4033}
+	// window-relative boundaries that are within reach of the clock get extra weight
+	var reach []int64
+	for _, b := range []int64{o, o + 1, o + 2015, o + 2016, o + 2017, o + 4030, o + 4031} {
+		if b >= n-432 && b <= n+432 {
+			reach = append(reach, b)
+		}
+	}
+	if len(reach) > 0 && rapid.IntRange(0, 2).Draw(t, name+"Reach") == 0 {
+		return clampU32(reach[rapid.IntRange(0, len(reach)-1).Draw(t, name+"ReachPick")])
+	}
 	switch rapid.IntRange(0, 3).Draw(t, name+"Class") {
 	case 0:
 		return clampU32(c[rapid.IntRange(0, len(c)-1).Draw(t, name)])
